@@ -202,7 +202,7 @@ func c20Build(v V, t reflect.Type) reflect.Value {
 			m.SetMapIndex(c20Build(kv.L[0], t.Key()), c20Build(kv.L[1], t.Elem()))
 		}
 		if m.Len() != len(v.L[4].L) {
-			c20Fatal("duplicate map keys in a generated case")
+			c20Fatal("duplicate map keys in a generated case: %v", c20Dump(v))
 		}
 		r.Set(m)
 	case k == 22:
@@ -260,6 +260,10 @@ func init() {
 	Exec["size.Of"] = func(a []V) string {
 		data := c20Arg(a[0])
 		return Int(size.Of(data))
+	}
+	// corpus rows carrying the hand-computed size as a second argument (judged by the Coq side)
+	Exec["size.Of/known"] = func(a []V) string {
+		return Int(size.Of(c20Arg(a[0])))
 	}
 	// the number in the first line of Stat: [] for "<nil>", [n] for "<type>: n"
 	Exec["size.Stat"] = func(a []V) string {
@@ -348,7 +352,12 @@ func (t *c20T) keyCap() int {
 		return 2
 	case t.K == 3 || t.K == 8:
 		return 100
-	case t.K <= 16 || t.K == 24 || t.K == 22 || t.K == 20:
+	case t.K == 22:
+		if t.Elem.zeroSize() {
+			return 1 // all pointers to zero-size objects may be equal (runtime.zerobase)
+		}
+		return 1 << 20
+	case t.K <= 16 || t.K == 24 || t.K == 20:
 		return 1 << 20
 	case t.K == 17:
 		if t.N == 0 {
@@ -365,6 +374,21 @@ func (t *c20T) keyCap() int {
 		return c
 	}
 	return 0
+}
+
+func (t *c20T) zeroSize() bool {
+	switch {
+	case t.K == 17:
+		return t.N == 0 || t.Elem.zeroSize()
+	case t.K == 25:
+		for _, f := range t.Fields {
+			if !f.zeroSize() {
+				return false
+			}
+		}
+		return true
+	}
+	return false
 }
 
 var c20ScalarKinds = []int{1, 2, 3, 4, 5, 6, 7, 8, 9, 10, 11, 12, 13, 14, 15, 16}
@@ -794,7 +818,7 @@ func genC20(g *Gen) {
 	}
 
 	// (5) random types of depth <= 5 and random values of them
-	n := g.N(2500, 60000)
+	n := g.N(8000, 120000)
 	for k := 0; k < n; k++ {
 		depth := g.R.Pick(1, 2, 2, 3, 3, 4, 4, 5, 5)
 		var t *c20T
@@ -812,4 +836,15 @@ func genC20(g *Gen) {
 		}
 		emit(text, fmt.Sprintf("rand-typedepth%d", depth))
 	}
+}
+
+func c20Dump(v V) string {
+	if !v.IsList() {
+		return v.Z.String()
+	}
+	xs := make([]string, len(v.L))
+	for i, x := range v.L {
+		xs[i] = c20Dump(x)
+	}
+	return L(xs...)
 }
